@@ -283,8 +283,10 @@ def r3_deposits(ctx):
         got = sig(q.novers(vals[0]))
         ok = got in ("melmint::multiply_frac(^total_liqs, Ratio::new(%s, ^total_mtsqrt))" % my, "melmint::pro_rata(^total_liqs, %s, ^total_mtsqrt)" % my)
         r.check(ok, "rewrite/value", "liquidity = multiply_frac(total_liqs, own_mtsqrt/total_mtsqrt)", "liquidity value = %s" % got[:300])
-        tq = sig(q.novers(caps.get("_ref__total_liqs", ("unknown", ""))))
-        r.check("PoolState::deposit(" in tq and "phi" in tq or tq.startswith("PoolState::deposit("), "rewrite/total_liqs", "total_liqs = result of PoolState::deposit", "total_liqs = %s" % tq[:160])
+        tqe = mir.strip(caps.get("_ref__total_liqs", ("unknown", "")))
+        alts = list(tqe[1]) if tqe[0] == "phi" else [tqe]
+        tq = sig(q.novers(tqe))
+        r.check(all(q.is_call(mir.strip(a), "PoolState::deposit") for a in alts), "rewrite/total_liqs", "total_liqs = result of PoolState::deposit (every branch)", "total_liqs = %s" % tq[:260])
         tm = sig(q.novers(caps.get("_ref__total_mtsqrt", ("unknown", ""))))
         TL, TR = sig(q.novers(tl[0][1])), sig(q.novers(tr[0][1]))
         r.check(tm == "core::num::<impl u128>::saturating_mul(%s(%s), %s(%s))" % (SQ, TL, SQ, TR), "rewrite/total_mtsqrt", "total_mtsqrt = √total_lefts·√total_rights", "total_mtsqrt = %s" % tm[:200])
